@@ -13,6 +13,7 @@ import (
 	"github.com/miekg/dns"
 	"github.com/semihalev/sdns/internal/dnsutil"
 	"github.com/semihalev/sdns/internal/metric"
+	"github.com/semihalev/sdns/internal/verifhook"
 	"github.com/semihalev/sdns/middleware"
 	"github.com/semihalev/sdns/middleware/resolver/dnssec"
 	"github.com/semihalev/zlog/v2"
@@ -859,6 +860,9 @@ func writeTombstones(filename string, t Tombstones) error {
 // failure mode dual-writes are meant to prevent.
 func atomicGobWrite(filename string, v interface{}) error {
 	dir := filepath.Dir(filename)
+	if err := verifhook.Fail("gobwrite.begin:" + filepath.Base(filename)); err != nil {
+		return err
+	}
 	f, err := os.CreateTemp(dir, filepath.Base(filename)+".tmp.*")
 	if err != nil {
 		return err
@@ -878,8 +882,15 @@ func atomicGobWrite(filename string, v interface{}) error {
 		_ = os.Remove(tmp)
 		return err
 	}
+	if err := verifhook.Fail("gobwrite.before-rename:" + filepath.Base(filename)); err != nil {
+		_ = os.Remove(tmp)
+		return err
+	}
 	if err := os.Rename(tmp, filename); err != nil {
 		_ = os.Remove(tmp)
+		return err
+	}
+	if err := verifhook.Fail("gobwrite.after-rename:" + filepath.Base(filename)); err != nil {
 		return err
 	}
 	// Best-effort durability for the rename's directory-entry
